@@ -380,10 +380,10 @@ def main(chk: C.Check, build: C.Build) -> None:
                     continue
                 if not thorough and n == 2 and r.random() > 0.2:
                     continue
-                if thorough and n == 3 and kind not in ("dict", "nsdict") and r.random() > 0.08:
+                if thorough and n == 3 and r.random() > (0.04 if kind in ("dict", "nsdict") else 0.01):
                     continue
                 hist.append(cfg + (number_contents(pre + list(body)),))
-        nrand = 40 if not thorough else 400
+        nrand = 40 if not thorough else 250
         for _ in range(nrand):
             n = r.randint(3, 9 if not thorough else 30)
             body = [r.choice(al) if r.random() > 0.5 else r.choice([o for o in al if o[0] == "L"]) for _ in range(n)]
@@ -457,7 +457,7 @@ def main(chk: C.Check, build: C.Build) -> None:
         "rule": ("histories over {Load(name in a,b; namespace in u,v; globals in none,G1; sync|async), Modify, Delete, FailNext} "
                  f"after a prefix that creates every source: exhaustive up to body length {exhaustive_len} "
                  "(quick: a seeded 20% of length 2 and only for the dict-backed loaders with capacity 1-2, length 1 elsewhere) for every "
-                 "(loader kind x capacity 1..3 x auto_reload x namespace_key) plus seeded random longer ones; "
+                 "(loader kind x capacity 1..3 x auto_reload x namespace_key) (thorough: all of length 2, a seeded 4% / 1% of length 3) plus seeded random longer ones; "
                  "non-trivial = some Load found its key already cached and was answered from / revalidated against the cache"),
         "samples": [{"kind": h[0], "capacity": h[1], "auto_reload": h[2], "namespace_key": h[3], "ops": h[4],
                      "observed": [s["c"] for s in results[i]["steps"]]}
